@@ -700,3 +700,39 @@ pub fn big_input(r: &mut Rng) -> (Big, &'static str) {
         }
     }
 }
+
+pub const VENDOR_DICT: [u16; 8] = [9, 311, 43, 529, 2636, 10415, 3561, 1];
+pub const VENDOR_GRID: u64 = 8 * 256 * 7 * 2 * 2 * 2;
+
+/// The space of small vendor-specific AVPs, enumerated: enterprise number (dictionary) x
+/// attribute type 0..=255 x payload length {0,1,2,3,4,6,8} x M x H x "length field overshoots".
+/// Vendor AVPs are the protocol's extension point, so special-casing creeps in here first.
+pub fn vendor_grid_case(r: &mut Rng, idx: u64) -> Vec<u8> {
+    let mut x = idx;
+    let vendor = VENDOR_DICT[(x % 8) as usize];
+    x /= 8;
+    let attr = (x % 256) as u16;
+    x /= 256;
+    let plen = [0usize, 1, 2, 3, 4, 6, 8][(x % 7) as usize];
+    x /= 7;
+    let mandatory = x % 2 == 1;
+    x /= 2;
+    let hidden = x % 2 == 1;
+    x /= 2;
+    let overshoot = x % 2 == 1;
+    let mut body = message_type_record(MESSAGE_TYPES[(idx % 14) as usize].0);
+    let mut rec = raw_record(attr, hidden, vendor, &r.bytes(plen), mandatory);
+    if overshoot {
+        // the record is the last one and claims more octets than the message holds
+        let claim = rec.len() + 1 + (idx % 40) as usize;
+        rec[0] = (rec[0] & 0x3f) | (((claim >> 8) & 3) as u8) << 6;
+        rec[1] = claim as u8;
+        body.extend_from_slice(&rec);
+    } else {
+        body.extend_from_slice(&rec);
+        if idx % 3 == 0 {
+            body.extend_from_slice(&raw_record(9, false, 0, &[0x12, 0x34], true));
+        }
+    }
+    control_around(&body, 1, 2, 3, 4)
+}
